@@ -19,7 +19,7 @@ static void fill_int(int32_t *a, int cls, int64_t B) {
         case 0: for (int i = 0; i < N; i++) a[i] = (int32_t) rng.range(-B, B); break;
         case 1: for (int i = 0; i < N; i++) a[i] = (int32_t) B; break;
         case 2: for (int i = 0; i < N; i++) a[i] = (int32_t) ((i & 1) ? -B : B); break;
-        case 3: for (int i = 0; i < N; i++) a[i] = 0; a[rng.below(N)] = (int32_t) (rng.coin() ? B : -B); break;
+        case 3: for (int i = 0; i < N; i++) a[i] = 0; a[rng.below(N)] = (int32_t) ((rng.coin() ? B : -B) + (B > (1 << 20) ? (rng.coin() ? 1 : -3) : 0)); break;   // above 2^20: not a power of two
         case 4: for (int i = 0; i < N; i++) a[i] = rng.below(2) ? (int32_t) B : 0; break;   // binary key pattern scaled by B
         case 5: { static int turn = 0; cur_period = 2 << (turn++ % 10); } cur_shift = (int) rng.below(cur_period);      // +,..,+,-,..,- with period 2,4,..,1024
                 for (int i = 0; i < N; i++) a[i] = (int32_t) ((((i + cur_shift) % cur_period) < cur_period / 2) ? B : -B); break;
